@@ -14,7 +14,9 @@ IDENTITY = {'id'}
 # the key component determines the operand completely
 INJECTIVE = {'tuple', 'list', 'tolist', 'tobytes', 'bytes', 'float', 'complex', 'item', 'str', 'repr', 'items', 'sorted', 'frozenset', 'asarray', 'array', 'ravel', 'flatten', 'copy', 'dict', 'keys', 'values',
              'zip', 'enumerate', 'map'}
-ORDER = {'direct': 0, 'derived': 1, 'lossy': 2, 'identity': 3}
+ORDER = {'direct': 0, 'shape': 1, 'derived': 2, 'lossy': 3, 'identity': 4}
+# library functions whose result depends on their array operands only through the shapes
+SHAPE_ONLY = {'einsum_path', 'broadcast_shapes', 'shape', 'ndim'}
 
 
 def _call_name(c):
@@ -61,14 +63,19 @@ def _params(fn_node):
     return names
 
 
-def _leaves(expr, fn_node, defs, params, stop=(), self_name=None, methods=None):
+def _leaves(expr, fn_node, defs, params, stop=(), self_name=None, methods=None, out_full=None):
+    out_full = set() if out_full is None else out_full
     """leaves an expression depends on: {('param', p) | ('self', attr) | ('self-method', m): worst-to-best kind of the path}; sub-expressions whose dump is in `stop` are not entered"""
     out = {}
     seen = set()
+    full = set()          # leaves whose CONTENT is used somewhere (not only their shape)
+    shape_only = [0]
 
     def note(leaf, kind):
         if leaf not in out or ORDER[kind] < ORDER[out[leaf]]:
             out[leaf] = kind
+        if not shape_only[0]:
+            full.add(leaf)
 
     def worse(a, b):
         return a if ORDER[a] >= ORDER[b] else b
@@ -85,7 +92,12 @@ def _leaves(expr, fn_node, defs, params, stop=(), self_name=None, methods=None):
                 for i, v in enumerate(defs[n.id]):
                     if (n.id, i, kind) not in seen:
                         seen.add((n.id, i, kind))
-                        go(v, kind)
+                        v0 = v
+                        while isinstance(v0, ast.Subscript):
+                            v0 = v0.value
+                        is_extent = (isinstance(v0, ast.Attribute) and v0.attr == 'shape') or (isinstance(v0, ast.Call) and _call_name(v0) == 'shape')
+                        # int(s) of an extent `s` (an entry of a shape) loses nothing
+                        go(v, 'direct' if (is_extent and kind == 'lossy') else kind)
                 if n.id in params:
                     note(('param', n.id), kind)
             elif n.id in params:
@@ -96,7 +108,12 @@ def _leaves(expr, fn_node, defs, params, stop=(), self_name=None, methods=None):
                 note(('self', n.attr), kind)
                 return
             # x.shape / x.dtype / x.T ...: something derived from x (x.T, x.real keep everything only together with more - not assumed)
-            go(n.value, worse(kind, 'derived'))
+            if n.attr in ('shape', 'ndim', 'dtype', 'size'):
+                shape_only[0] += 1
+                go(n.value, worse(kind, 'shape'))
+                shape_only[0] -= 1
+            else:
+                go(n.value, worse(kind, 'derived'))
             return
         if isinstance(n, ast.Call):
             name = _call_name(n)
@@ -110,14 +127,20 @@ def _leaves(expr, fn_node, defs, params, stop=(), self_name=None, methods=None):
                 k2 = worse(kind, 'lossy')
             elif name in INJECTIVE:
                 k2 = kind
+            elif name in ('shape', 'ndim'):
+                k2 = worse(kind, 'shape')
             else:
                 k2 = worse(kind, 'derived')
             if isinstance(n.func, ast.Attribute) and not (isinstance(n.func.value, ast.Name) and (n.func.value.id == self_name or (n.func.value.id not in defs and n.func.value.id not in params))):
                 go(n.func.value, k2)          # the receiver of a method call (not a module: np.round)
+            if name in SHAPE_ONLY:
+                shape_only[0] += 1
             for a in n.args:
                 go(a.value if isinstance(a, ast.Starred) else a, k2)
             for kw in n.keywords:
                 go(kw.value, k2)
+            if name in SHAPE_ONLY:
+                shape_only[0] -= 1
             return
         if isinstance(n, (ast.Tuple, ast.List, ast.Set)):
             for e in n.elts:
@@ -131,10 +154,18 @@ def _leaves(expr, fn_node, defs, params, stop=(), self_name=None, methods=None):
             go(n.left, worse(kind, 'lossy'))
             go(n.right, worse(kind, 'lossy'))
             return
+        if isinstance(n, (ast.GeneratorExp, ast.ListComp, ast.SetComp)):
+            go(n.elt, kind)          # the items are reached through the targets (bound to their iterables in `defs`)
+            for g_ in n.generators:
+                for c_ in g_.ifs:
+                    go(c_, worse(kind, 'derived'))
+            return
         for c in ast.iter_child_nodes(n):
             if isinstance(c, (ast.expr, ast.comprehension, ast.keyword, ast.Starred)):
                 go(c, worse(kind, 'derived') if not isinstance(n, (ast.IfExp, ast.Starred, ast.keyword)) else kind)
     go(expr, 'direct')
+    out_full.clear()
+    out_full.update(full)
     return out
 
 
@@ -208,7 +239,8 @@ def verdict(fn_node, key, value, self_name=None, instance_config=False, methods=
             comps.append(c)
     stop = {ast.dump(c) for c in comps}
     kl = _leaves(key, fn_node, defs, params, self_name=self_name, methods=methods)
-    vl = _leaves(value, fn_node, defs, params, stop=stop, self_name=self_name, methods=methods)
+    content = set()
+    vl = _leaves(value, fn_node, defs, params, stop=stop, self_name=self_name, methods=methods, out_full=content)
     if any(kind == 'identity' for kind in kl.values()):
         ids = sorted(l[1] for l, kind in kl.items() if kind == 'identity')
         return ('violation', f'the key is built from the identity of {ids} (`id(..)`): the same object with other content, or another object at the same address, finds the entry computed before')
@@ -226,6 +258,8 @@ def verdict(fn_node, key, value, self_name=None, instance_config=False, methods=
         if kind == 'lossy':
             return ('violation', f'the stored value is computed from `{name}` itself, the key only from a rounded / truncated form of it: different values of `{name}` share one entry, and '
                                  f'which of them the entry was computed for depends on the order of the calls')
+        if kind == 'shape' and leaf not in content:
+            continue          # the value uses only the shape of the operand (np.einsum_path, .shape), and the key holds that shape
         if kind != 'direct':
             unknown.append(f'`{name}` enters the key only through something derived from it (a shape, a part, a function that is not followed)')
     if unknown:
@@ -238,8 +272,31 @@ def table_effect_verdict(fn, node, table_name):
     (any other effect on a module-level object - a slot overwritten, an attribute of a cached object set, a cached array written - is hidden state as such)"""
     if node is None:
         return None
-    self_name = fn.params[0] if (fn.cls is not None and not fn.is_static and fn.params) else None
-    stores = keyed_stores(fn.node, lambda x: isinstance(x, ast.Name) and x.id == table_name)
+    # the statement may belong to a private helper that the evaluator entered from `fn` (the effect is recorded in the caller's context): judge it in the function that contains it
+    fnode, in_class = fn.node, fn.cls is not None
+    if not any(y is node for y in ast.walk(fnode)):
+        fnode = None
+        for mod in {fn.mod}:
+            stack = [(mod.tree, False)]
+            while stack:
+                cur, incls = stack.pop()
+                for ch in ast.iter_child_nodes(cur):
+                    if isinstance(ch, (ast.FunctionDef, ast.AsyncFunctionDef)) and any(y is node for y in ast.walk(ch)):
+                        fnode, in_class = ch, incls          # innermost wins: keep descending
+                        stack.append((ch, False))
+                    elif isinstance(ch, ast.ClassDef):
+                        stack.append((ch, True))
+                    elif not isinstance(ch, (ast.FunctionDef, ast.AsyncFunctionDef)):
+                        stack.append((ch, incls))
+        if fnode is None:
+            return None
+    class _F:
+        pass
+    static = any((isinstance(d, ast.Name) and d.id == 'staticmethod') for d in fnode.decorator_list)
+    args = [a.arg for a in fnode.args.posonlyargs + fnode.args.args]
+    self_name = args[0] if (in_class and not static and args) else None
+    stores = keyed_stores(fnode, lambda x: isinstance(x, ast.Name) and x.id == table_name)
+    fn = type('F', (), {'node': fnode, 'cls': fn.cls if fnode is fn.node else None})()
     hit = [s_ for s_ in stores if s_[0] is node or any(y is node for y in ast.walk(s_[0])) or any(y is s_[0] for y in ast.walk(node))]
     if not hit:
         return None
